@@ -530,6 +530,7 @@ static const char* K_DIVS = "div-by-scalar-value-uses-reciprocal";
 static const char* K_POWSE = "pow-scalar-base-value-via-exp-log";
 static const char* K_DYNSDIV = "scalar-over-dynamic-evaluation-garbage";
 static const char* K_POW0 = "pow-base-zero-exponent-one-derivative-zero";
+static unsigned long long g_reused = 0;     // results move-assigned into a reused object of another size (dynamic variants)
 
 template <class TR>
 static void runVariant(const Tree& t, RootObs& ro, Fail& fail)
@@ -573,6 +574,17 @@ static void runVariant(const Tree& t, RootObs& ro, Fail& fail)
                 // known finding: `scalar / DynamicEvaluation` is broken; keep going with the all-Evaluation form
                 g_knownHits[K_DYNSDIV]++;
                 res.push_back(TR::cst(N, n.s, 0) / ea);
+            } else if (TR::dynamic && (i % 2 == 1)) {
+                // object reuse: the result is move-assigned into an object that held an evaluation with ANOTHER number of
+                // derivatives before (a work variable reused across expressions); value() and derivative() are then read
+                // from that very object (res never reallocates: reserved above).  Sizes 3 / 11 lie on both sides of the
+                // inline-storage bound of the <DynamicSize,6> variant.
+                const int occ = (N <= 6) ? 11 : 3;
+                E occupant = TR::var(occ, 0.75 + double(i), occ - 1, 0);
+                for (int k = 0; k < occ; ++k) occupant.setDerivative(k, 100.0 + k);
+                res.push_back(occupant);
+                res.back() = applyOp<E>(n, ea, eb);
+                g_reused++;
             } else {
                 res.push_back(applyOp<E>(n, ea, eb));
             }
@@ -1039,6 +1051,7 @@ int main(int argc, char** argv)
         FILE* fo = std::fopen(fpsOut.c_str(), "wb");
         if (fo) { std::fwrite(C.shapes.data(), sizeof(uint64_t), C.shapes.size(), fo); std::fclose(fo); }
     }
+    C.labels["dynamic:result-move-assigned-into-reused-object-of-other-size"] = long(g_reused);
     std::ostringstream o;
     o << "{\"ok\":" << (ok ? "true" : "false") << ",\"cases\":" << C.cases << ",\"nontrivial\":" << C.nontrivial
       << ",\"timed_out\":" << (timedOut ? "true" : "false") << ",\"discarded\":" << C.discarded << ",\"variant_evaluations\":" << C.variantEvals
